@@ -48,6 +48,12 @@ def optInt? : Option Int → Except PyExc Int
   | some i => .ok i
   | none => .error PyExc.TypeError
 
+/-- ... passed to a translated method whose parameter is declared `Int`: the callee is specified for ints only, so `None`
+    as that argument is NOT MODELLED (`Other`; the self-test counts it as unspecified) -/
+def optIntArg? : Option Int → Except PyExc Int
+  | some i => .ok i
+  | none => .error PyExc.Other
+
 /-- ... stored into a cell / a list of dynamic values -/
 def boxOpt : Option Int → Val κ ν
   | some i => .int i
